@@ -213,11 +213,36 @@ func (d *rdb) stmtWithLogCrashPoints(q string, probes []string) string {
 		images = append(images, img{k, "write", d.captureImage(-1)}, img{k, "sync", d.captureImage(synced)})
 		k++
 	})
+	walPath := "data/" + d.name + "/wal"
+	pre := fileLen(walPath)
 	res := d.stmt(q)
 	if d.trackWal {
 		storage.VerifSetHook(d.trackSync)
 	} else {
 		storage.VerifSetHook(nil)
+	}
+	// The log cut at ARBITRARY byte positions inside what the statement appended (a write call that
+	// the crash interrupted half-way): the write-call boundaries above are a subset of these.  No
+	// page is written during a statement, so the data file of every such image is the present one.
+	if fin := fileLen(walPath); fin > pre+1 && d.rs != nil {
+		rr := d.cfg.rng.Fork()
+		n := 3
+		if d.cfg.tier == "thorough" {
+			n = 8
+		}
+		seen := map[int64]bool{}
+		for i := 0; i < n; i++ {
+			off := 1 + int64(rr.Intn(int(fin-pre-1)))
+			if i == 0 {
+				off = fin - pre - 1 // the last byte of the last record missing
+			}
+			if seen[off] {
+				continue
+			}
+			seen[off] = true
+			images = append(images, img{0, fmt.Sprintf("byte:%d", off), d.captureImage(pre + off)})
+			d.cfg.st.Inc("crash-images.byte-cut")
+		}
 	}
 	for _, im := range images {
 		// after the probe statements: a second crash and a second recovery
